@@ -1501,6 +1501,9 @@ impl Linearizer {
             Comparison::Equal => ValueRequirement::Exact,
         };
         let value = exp.linearize(self, requirement)?;
+        if !value.is_finite() {
+            return Err(LinearizationError::NonFiniteConstant(Box::new(exp)));
+        }
         self.linear_constraints
             .push(MidLinearConstraint::new_from_linearized_context(
                 value, comparison, name,
@@ -1558,6 +1561,9 @@ impl Linearizer {
             OptimizationType::Satisfy => ValueRequirement::Exact,
         };
         let linearized_objective = objective_exp.linearize(&mut context, objective_requirement)?;
+        if !linearized_objective.is_finite() {
+            return Err(LinearizationError::NonFiniteConstant(Box::new(objective_exp)));
+        }
         while let Some(constraint) = context.pop_constraint() {
             let is_logic_assertion = constraint.is_logic_assertion();
             let (lhs, op, rhs, name) = constraint.into_parts();
@@ -1666,6 +1672,8 @@ pub enum LinearizationError {
     VarAlreadyDeclared(String),
     UnimplementedExpression(Box<Exp>),
     NonBinaryLogicOperand(Box<Exp>),
+    /// A coefficient, right-hand side or offset of the linear form is NaN or infinite
+    NonFiniteConstant(Box<Exp>),
     MissingFiniteBounds {
         expression: Box<Exp>,
         requirement: &'static str,
@@ -1699,6 +1707,13 @@ impl Display for LinearizationError {
             }
             LinearizationError::NonBinaryLogicOperand(exp) => {
                 write!(f, "Logic operands must be boolean values, got: \"{}\"", exp)
+            }
+            LinearizationError::NonFiniteConstant(exp) => {
+                write!(
+                    f,
+                    "Infinite or undefined constant in linear expression: \"{}\"",
+                    exp
+                )
             }
             LinearizationError::MissingFiniteBounds {
                 expression,
@@ -1823,6 +1838,10 @@ impl LinearizationContext {
     /// Returns the constant term (RHS).
     pub fn rhs(&self) -> f64 {
         self.current_rhs
+    }
+
+    pub fn is_finite(&self) -> bool {
+        self.current_rhs.is_finite() && self.current_vars.values().all(|c| c.is_finite())
     }
 
     #[allow(unused)]
